@@ -84,6 +84,8 @@ def run(tier, seed, replay=None):
     rich["collide_two"] = H + GL + "table(sub) cA > cB; endtable;\ntable(pos) pass(1) {CollisionFix = 1} endpass; pass(2) {CollisionFix = 2; AutoKern = 1} cA {collision.flags = 3} cB; endpass; pass(3) cB {shift.y = 3m}; endpass; endtable;\n"
     rich["sparse_passes"] = H + GL + "table(sub) pass(2) cA > cB; endpass; pass(5) cB > cA / cA _; endpass; endtable;\ntable(pos) pass(3) cA {kern.x = 4m} cB; endpass; endtable;\n"
     rich["lb_items"] = H + GL + "table(sub) cA > cB / # _; cB > cA / _ #; cA cB > cB cA / # _ _ #; endtable;\n"
+    rich["g_two_missing_in_context"] = H + 'table(glyph) cX = (unicode(0x4E00), unicode(0x4E01), codepoint("a")); cA = glyphid(3..6); cB = glyphid(7..10); endtable;\ntable(sub) cA > cB / cX _; endtable;\n'
+    rich["g_missing_in_subst"] = H + "table(glyph) cA = unicode(0x61, 0x1234, 0x62); cB = glyphid(7..9); endtable;\ntable(sub) cA > cB; endtable;\n"
     rfont = _ttf.simple_font(40, post_names=[".notdef"] + ["g%d" % i for i in range(1, 40)])[0]
     for rname in sorted(rich):
         prog = gen.Prog()
@@ -92,6 +94,8 @@ def run(tier, seed, replay=None):
         prog.raw_gdl = rich[rname]
         for oi, opts in enumerate(OPTS_QUICK if tier == "thorough" else [[], ["-v5", "-c"], ["-v3", "-p"], ["-offsets"], ["-v2"]]):
             nm = "rich_%s_o%d" % (rname, oi)
+            if rname.startswith("g_"):
+                opts = ["-g"] + opts     # invalid glyph references are tolerated and dropped
             r = harness.compile_cases(build, work, [(nm, prog)], extra_args=opts)[0]
             total += 1
             if r["rc"] != 0 or not os.path.exists(os.path.join(r["dir"], "out.ttf")):
